@@ -35,9 +35,9 @@ for d in sorted(glob.glob(f'{V}/seeded/*-*')):
       'files':sorted(set(re.findall(r'^\+\+\+ b/(\S+)',open(f'{d}/patch.diff').read(),re.M))),
       'patch':'patch.diff'+(' (patch.ported.diff: same change re-based onto the tree after later fix commits)' if os.path.exists(f'{d}/patch.ported.diff') else ''),
       'demonstration':f'demo_test.go (package directory {pkg}; copied in as zz_seed_demo_test.go)',
-      'author':'fresh sub-agent given only the property text and a scratch worktree (never /repo)',
+      'author':'fresh sub-agent given only the property text and a scratch worktree under /tmp (never /repo, nothing from /verif; round 2 worktrees had the guarded contract files removed)',
       'confirmed_by_me':{
-        'tool':'tools/confirm_seed.sh '+prop+' '+seed.split('-')[1],
+        'tool':'tools/confirm_seed.sh (worktree of the agent, then removed with git worktree remove --force)',
         'what_was_run':['demo test on the unchanged worktree: passes','git apply patch.diff; go build ./...: builds','demo test with the patch: FAILS (the property is broken observably)',
                         'go test ./... with the patch (guard off): no failure beyond the baseline failures of the pinned suite; timing-based tests that failed under load were re-run alone','git checkout -- . (seed undone; never committed to /repo)'],
         'result':'confirmed'},
